@@ -357,8 +357,8 @@ impl<T> Pool<T> {
     pub fn verif_snapshot(&self) -> Option<crate::verif::UnmanagedSnapshot> {
         let queue = self.inner.queue.try_lock_silent().ok()?;
         Some(crate::verif::UnmanagedSnapshot {
-            permits: self.inner.semaphore.available_permits(),
-            size_permits: self.inner.size_semaphore.available_permits(),
+            permits: self.inner.semaphore.available_permits_silent(),
+            size_permits: self.inner.size_semaphore.available_permits_silent(),
             closed: self.inner.semaphore.is_closed_silent(),
             size: self.inner.size.load_silent(),
             available: self.inner.available.load_silent(),
